@@ -141,6 +141,8 @@ func (e *storeEnv) openStore(cfg StoreCfg, name string) (eventbus.EventStore, er
 	switch cfg.Kind {
 	case "mem":
 		return eventbus.NewMemoryStore(), nil
+	case "naive":
+		return &naiveStore{}, nil
 	case "sqlite":
 		path := filepath.Join(e.tempDir(), name+".db")
 		var opts []sqlite.Option
@@ -441,3 +443,32 @@ func (s fsSubOnly) LoadOffset(ctx context.Context, id string) (eventbus.Offset, 
 }
 
 func offLess(a, b eventbus.Offset) bool { return strings.Compare(string(a), string(b)) < 0 }
+
+// naiveStore is a minimal EventStore that, like many simple user-written stores, is not safe for
+// concurrent Append on its own: it relies on the bus serialising appends. Its Append reaches a
+// decision point between choosing the offset and recording the event.
+type naiveStore struct {
+	events []*eventbus.StoredEvent
+}
+
+func (s *naiveStore) Append(ctx context.Context, ev *eventbus.Event) (eventbus.Offset, error) {
+	off := eventbus.Offset(fmt.Sprintf("%020d", len(s.events)+1))
+	simrt.Yield(siteStoreOp)
+	s.events = append(s.events, &eventbus.StoredEvent{Offset: off, Type: ev.Type, Data: ev.Data, Timestamp: ev.Timestamp})
+	return off, nil
+}
+
+func (s *naiveStore) Read(ctx context.Context, from eventbus.Offset, limit int) ([]*eventbus.StoredEvent, eventbus.Offset, error) {
+	var out []*eventbus.StoredEvent
+	next := from
+	for _, e := range s.events {
+		if from == eventbus.OffsetOldest || e.Offset > from {
+			out = append(out, e)
+			next = e.Offset
+			if limit > 0 && len(out) >= limit {
+				break
+			}
+		}
+	}
+	return out, next, nil
+}
